@@ -113,3 +113,11 @@ package bundler
 // whose tasks are still inside onResolve/onLoad callbacks). Taking them back on another goroutine lets ScanBundle, and
 // with it the build, return while plugin callbacks of that build are still executing.
 //@ guarded scan-collects-its-own-parse-results C20: func=ScanBundle ; in=bundler ; site=recv *resultChannel ; forbid-go=1
+// The same for the rebuild's "is this path one of the inputs" question: both sides are cleaned before they are compared
+// (an input path may come verbatim from a plugin: <root>/src/./a.js).
+//@ flow input-question-compares-clean-paths C17: func=(*Bundle).ContainsInputFile ; in=bundler ; site=call canonicalFileSystemPathForWindows ; scenario=rebuild_deletes_input ; argpath=0:call Join(*)
+
+// C19 (one file, one name in the metafile): every path of an input that is written into the metafile is rendered in the
+// METAFILE path style (the keys of "inputs", the keys of outputs[*].inputs, entryPoint, imports[*].path all name the
+// same file by the same string); the log path style is another setting and may differ (AbsPaths).
+//@ flow metafile-paths-use-the-metafile-style C19: func=(*scanner).processScannedFiles ; in=bundler ; site=call QuoteForJSON ; when-arg=0:*PrettyPaths* ; argpath=0:*Select(*MetafilePathStyle)*
